@@ -1,9 +1,12 @@
 package world
 
 import (
+	"strings"
+
 	"github.com/boz/kcache/filter"
 	"github.com/boz/kcache/nsname"
 	metav1 "k8s.io/apimachinery/pkg/apis/meta/v1"
+	"k8s.io/apimachinery/pkg/labels"
 )
 
 // FilterSpec is a small term language for the filters used in scenarios.
@@ -16,7 +19,7 @@ type FilterSpec struct {
 
 func (fs FilterSpec) String() string {
 	switch fs.Op {
-	case "labels", "fn", "nsname":
+	case "labels", "fn", "nsname", "labels2", "nsnames", "lsel", "sel":
 		return fs.Op + "(" + fs.K + "," + fs.V + ")"
 	case "not", "and", "or":
 		s := fs.Op + "("
@@ -46,6 +49,36 @@ func (fs FilterSpec) Build() filter.Filter {
 		return filter.Labels(map[string]string{fs.K: fs.V})
 	case "nsname":
 		return filter.NSName(nsname.New(fs.K, fs.V))
+	case "labels2":
+		// two label keys at once (V = "v1|v2" for app and tier); "|" alone = the empty match
+		m := map[string]string{}
+		if vs := strings.SplitN(fs.V, "|", 2); len(vs) == 2 {
+			if vs[0] != "" {
+				m["app"] = vs[0]
+			}
+			if vs[1] != "" {
+				m["tier"] = vs[1]
+			}
+		}
+		return filter.Labels(m)
+	case "nsnames":
+		// several ids: V = "ns/name,ns/name,..." (an empty name selects the namespace)
+		var ids []nsname.NSName
+		for _, id := range strings.Split(fs.V, ",") {
+			if p := strings.SplitN(id, "/", 2); len(p) == 2 {
+				ids = append(ids, nsname.New(p[0], p[1]))
+			}
+		}
+		return filter.NSName(ids...)
+	case "lsel":
+		// LabelSelector: matchLabels {K: V} plus, if V contains "|", an In
+		// expression over the alternatives instead
+		if strings.Contains(fs.V, "|") {
+			return filter.LabelSelector(&metav1.LabelSelector{MatchExpressions: []metav1.LabelSelectorRequirement{{Key: fs.K, Operator: metav1.LabelSelectorOpIn, Values: strings.Split(fs.V, "|")}}})
+		}
+		return filter.LabelSelector(&metav1.LabelSelector{MatchLabels: map[string]string{fs.K: fs.V}})
+	case "sel":
+		return filter.Selector(labels.SelectorFromSet(labels.Set{fs.K: fs.V}))
 	case "fn":
 		k, v := fs.K, fs.V
 		return filter.FN(func(o metav1.Object) bool { return o.GetLabels()[k] == v })
